@@ -2,6 +2,8 @@
 namespace Inspector
 /-- (entry point, function, variable): stores to package-level variables reachable from a runtime entry point -/
 def runtimeGlobalWrites : List (String × String × String) := []
+/-- (entry point, function, variable, how): memory of a package-level variable handed out by a function reachable from a runtime entry point -/
+def runtimeGlobalEscapes : List (String × String × String × String) := []
 /-- (function, variable): writers that no runtime entry point reaches (init, Register*, generation time) -/
 def initTimeGlobalWrites : List (String × String) := [
   ("gen/decl_ins.init", "decl_ins.init$guard"),
